@@ -135,12 +135,12 @@ static int skip_fn(const char *f)
 
 /* write the library frames of pcs[0..n) to out as f1<f2<..  (innermost first; allocator entry
  * points removed; stops at the first frame that is not library code once a library frame was
- * seen).  Long stacks keep the 9 innermost frames and the outermost one (the API function):
- * f1<..<f9<~<fN */
+ * seen).  Very long stacks keep the 24 innermost frames and the outermost one (the API
+ * function): f1<..<f24<~<fN */
 #define MAXFR 48
 static void fmt_stack(void **pcs, size_t n, char *out, size_t outlen)
 {
-  static char names[MAXFR][96];
+  static char names[MAXFR][80];
   size_t      i;
   size_t      used    = 0;
   int         nfr     = 0;
@@ -188,8 +188,8 @@ static void fmt_stack(void **pcs, size_t n, char *out, size_t outlen)
     return;
   }
   for (j = 0; j < nfr; j++) {
-    if (nfr > 10 && j >= 9 && j < nfr - 1) {
-      if (j == 9) {
+    if (nfr > 25 && j >= 24 && j < nfr - 1) {
+      if (j == 24) {
         used += (size_t)snprintf(out + used, outlen - used, "<~");
       }
       continue;
@@ -203,7 +203,7 @@ static void fmt_stack(void **pcs, size_t n, char *out, size_t outlen)
 static void report_failsite(void)
 {
   void *pcs[40];
-  char  out[1024];
+  char  out[2600];
   int   n = backtrace(pcs, 40);
   fmt_stack(pcs, (size_t)(n > 0 ? n : 0), out, sizeof(out));
   printf("%ld FAILSITE %s\n", cur_case, out);
@@ -272,7 +272,7 @@ static void report_leaks(void)
       total++;
       if (shown < 6) {
         void *pcs[40];
-        char  out[1024];
+        char  out[2600];
         int   tid = 0;
         size_t n  = 0;
         if (__asan_get_alloc_stack != NULL) {
